@@ -352,6 +352,18 @@ class World:
 
     # ---- spec functions ---------------------------------------------------
     def spec_call(self, eng, st, n, e, bound):
+        if n == 'ccount':
+            return VInt(len([c for c in st.marks.get('ccalls', []) if c[0] == e.args[0].value]))
+        if n == 'ccount_last':
+            return VInt(len([c for c in st.marks.get('ccalls', []) if c[0] == e.args[0].value]) - 1)
+        if n == 'carg':
+            # carg('Class.method', k, 'param'): the argument bound to `param` in the k-th call of that function
+            calls = [c for c in st.marks.get('ccalls', []) if c[0] == e.args[0].value]
+            ke = e.args[1]
+            k = ke.value if isinstance(ke, ast.Constant) else z3.simplify(to_int(eng.sev(ke, st, bound))).as_long()
+            if k < 0 or k >= len(calls) or e.args[2].value not in calls[k][1]:
+                return VInt(fresh('nocall', I))
+            return calls[k][1][e.args[2].value]
         if n == 'ncalls':
             f = eng.sev(e.args[0], st, bound)
             return VInt(st.node(f.log).n)
